@@ -7,7 +7,11 @@
   Each blocking I/O call takes its outcome as a parameter of the operation that lets it
   return (`io o`), the firing of the transaction's `gevent.Timeout` while it is blocked in
   such a call is the operation `timeoutHere r` (r = outcome of the re-connect the handler
-  makes).  Between two blocking calls the greenlet is atomic (gevent is cooperative).
+  makes, when that connect concludes without yielding) or `timeoutBlock` (the connect takes
+  time: `socket.open()` is a blocking call like the others, the greenlet yields in it with
+  `_processing` still set and the socket handle gone — phase `reconn` — until the operation
+  `reconn r` lets it conclude; only then is the request handed its TimeoutError).  Between two
+  blocking calls the greenlet is atomic (gevent is cooperative).
 
   The model describes the code *after* the repair of F4/F4b (the re-connect in the timeout
   handler is guarded: it is only made if the socket was connected, and a refused re-connect
@@ -22,6 +26,7 @@ inductive Phase where
   | write
   | read4
   | readN
+  | reconn               -- in the time-out handler, blocked in the re-connect (`self._socket.open()`)
   deriving Repr, DecidableEq, Inhabited
 
 /-- the deadline carried by a request -/
@@ -30,6 +35,7 @@ inductive DL where
   | future               -- deadline ahead: a gevent.Timeout is started
   | past (r : Conn)      -- deadline already passed at the check: Timeout raised before the write;
                          -- `r` is the outcome of the re-connect the handler makes
+  | pastBlock            -- the same, and the re-connect takes time (the greenlet blocks in it)
   deriving Repr, DecidableEq, Inhabited
 
 structure Txn where
@@ -89,6 +95,16 @@ def St.txnTimeout (s : St) (id : Nat) (r : Conn) : St × Eff :=
   else
     ({ s1 with processing := none }, { dels := [(id, .timeout)] })
 
+/-- the `except gevent.Timeout` arm of transaction `t` when the re-connect takes time: close;
+    if the socket was connected the greenlet blocks in `self._socket.open()` — `_processing` is
+    still set, `_state` is untouched, nothing has been handed to the request yet; otherwise
+    (nothing to re-connect) clear and respond as in `txnTimeout` -/
+def St.txnTimeoutStart (s : St) (t : Txn) : St × Eff :=
+  if s.sockOpen then
+    ({ s with sockOpen := false, processing := some { t with phase := .reconn } }, {})
+  else
+    ({ s with sockOpen := false, processing := none }, { dels := [(t.id, .timeout)] })
+
 /-- frames that reached the peer are reported separately from `Eff` -/
 structure Out where
   eff : Eff := {}
@@ -105,6 +121,9 @@ def St.request (s : St) (id : Nat) (dl : DL) : St × Out :=
     | .past r =>
       let (s', e) := ({ s with processing := some ⟨id, true, .write⟩ } : St).txnTimeout id r
       (s', { eff := e })
+    | .pastBlock =>
+      let (s', e) := ({ s with processing := some ⟨id, true, .write⟩ } : St).txnTimeoutStart ⟨id, true, .write⟩
+      (s', { eff := e })
     | .none =>
       if s.sockOpen then ({ s with processing := some ⟨id, false, .write⟩ }, {})
       else let (s', e) := ({ s with processing := some ⟨id, false, .write⟩ } : St).txnFail id .other
@@ -114,11 +133,13 @@ def St.request (s : St) (id : Nat) (dl : DL) : St × Out :=
       else let (s', e) := ({ s with processing := some ⟨id, true, .write⟩ } : St).txnFail id .other
            (s', { eff := e })
 
-/-- the blocking call of the transaction in flight returns with outcome `o` -/
+/-- the blocking I/O call of the transaction in flight returns with outcome `o` (a transaction
+    blocked in the re-connect is in no I/O call: nothing happens) -/
 def St.io (s : St) (o : IOOut) : St × Out :=
   match s.processing with
   | none => (s, {})
   | some t =>
+    if t.phase = .reconn then (s, {}) else
     match o with
     | .raise => let (s', e) := s.txnFail t.id .other; (s', { eff := e })
     | .eof => let (s', e) := s.txnFail t.id .eof; (s', { eff := e })
@@ -127,13 +148,38 @@ def St.io (s : St) (o : IOOut) : St × Out :=
       | .write => ({ s with processing := some { t with phase := .read4 } }, { sent := [t.id] })
       | .read4 => ({ s with processing := some { t with phase := .readN } }, {})
       | .readN => ({ s with processing := none }, { eff := { dels := [(t.id, .stream)] } })
+      | .reconn => (s, {})
 
-/-- the transaction's `gevent.Timeout` fires while it is blocked -/
+/-- the transaction's `gevent.Timeout` fires while it is blocked in an I/O call (it fires once:
+    nothing happens to a transaction that is already in the time-out handler) -/
 def St.timeoutHere (s : St) (r : Conn) : St × Out :=
   match s.processing with
   | none => (s, {})
   | some t =>
-    if t.hasDl then let (s', e) := s.txnTimeout t.id r; (s', { eff := e })
+    if t.hasDl && t.phase != .reconn then let (s', e) := s.txnTimeout t.id r; (s', { eff := e })
+    else (s, {})
+
+/-- the same, with a re-connect that takes time -/
+def St.timeoutBlock (s : St) : St × Out :=
+  match s.processing with
+  | none => (s, {})
+  | some t =>
+    if t.hasDl && t.phase != .reconn then let (s', e) := s.txnTimeoutStart t; (s', { eff := e })
+    else (s, {})
+
+/-- the re-connect in progress concludes: accepted — the socket is connected again —, or refused
+    — `_Fault` —; then `_processing` is cleared and the request is handed its TimeoutError -/
+def St.reconnDone (s : St) (r : Conn) : St × Out :=
+  match s.processing with
+  | none => (s, {})
+  | some t =>
+    if t.phase = .reconn then
+      let (s2, f) : St × Nat :=
+        match r with
+        | .ok => ({ s with sockOpen := true }, 0)
+        | .refuse => s.fault
+      ({ s2 with processing := none },
+       { eff := { faults := f, dels := [(t.id, .timeout)], conns := 1 } })
     else (s, {})
 
 end Scales.Serial
